@@ -293,6 +293,7 @@ def judge(case: dict, d: str, rc: int, log: list[dict], records: list[Record | N
 
     acked = {r["i"] for r in log if r["t"] == "ack"}
     settled = acked | {r["i"] for r in log if r["t"] in ("rej", "ret")}
+    returned = acked | {r["i"] for r in log if r["t"] == "ret"}
     in_progress = 0
     while in_progress in settled:
         in_progress += 1
@@ -354,14 +355,25 @@ def judge(case: dict, d: str, rc: int, log: list[dict], records: list[Record | N
                     if tuple(row[c] for c in key_cols[rec.table]) == rec.key]
 
         # F2 ------------------------------------------------------------------------------------------------
+        def first_acked(rec: Record) -> Record:
+            # a record stays as it was acknowledged: a later insert under the same primary key is ignored by the identity
+            # tables (INSERT OR IGNORE) and refused by the wallet, so the FIRST acknowledged record of a key is the one
+            # that must be there, unchanged
+            # (a record whose call returned inside a "with database:" block that was then left by an exception sits in
+            # the same open transaction: it is the one a later insert of the same key collides with)
+            for i, r in enumerate(records):
+                if r is not None and i in returned and r.table == rec.table and r.key == rec.key:
+                    return r
+            return rec
+
         for rec in must:
-            group = [r.row for r in started if r.table == rec.table and r.key == rec.key]
             hits = rows_with_key(rec)
             if not hits:
                 fail("F2", rec.table, f"acknowledged record {_describe(rec)} is missing after the crash")
-            if not any(h in group for h in hits):
-                diff = [i for i, (a, b) in enumerate(zip(hits[0], rec.row)) if a != b]
-                fail("F2", rec.table, f"acknowledged record {_describe(rec)} came back changed in columns {diff}: "
+            want = first_acked(rec)
+            if want.row not in hits:
+                diff = [i for i, (a, b) in enumerate(zip(hits[0], want.row)) if a != b]
+                fail("F2", rec.table, f"acknowledged record {_describe(want)} came back changed in columns {diff}: "
                                       f"{[_short(x) for x in hits[0]]}")
         # the same through the reload API
         if idb is not None:
@@ -373,7 +385,7 @@ def judge(case: dict, d: str, rc: int, log: list[dict], records: list[Record | N
                 for rec in must:
                     if rec.pseud != p:
                         continue
-                    group = [r for r in started if r.table == rec.table and r.key == rec.key]
+                    group = [first_acked(rec)]
                     if rec.table == "Tokens":
                         if not any(g.obj[0] == t and g.obj[1] == t.content for g in group for t in got_tokens):
                             fail("F2", "Tokens:get_tokens_for", f"acknowledged token {_describe(rec)} is not returned "
@@ -488,6 +500,10 @@ def dry_run(root: str, case: dict) -> tuple[int, int]:
         d, rc, log = run_child(root, ops, {"mode": "none"})
         done = next((r for r in log if r["t"] == "done"), None)
         if rc != 0 or done is None:
+            died = next((r for r in log if r["t"] == "kill" and r.get("mode") == "error"), None)
+            if died is not None:
+                # the library raised in the middle of a legal workload: crash points up to there are still enumerated
+                return died["api_seen"], died["sql_seen"]
             raise HarnessError(f"dry run of a scripted workload did not finish: rc={rc}")
         return done["api"], done["sql"]
     finally:
@@ -562,6 +578,10 @@ SCRIPTS: list[tuple[str, dict]] = [
     ("batch-ignored-then-inserts", _script(tokens=[(0, -1, 8), (0, 0, 8)], metas=[(0, 2), (1, 2)],
                                            ops=[("token", 0, 1), ("batch_begin",), ("meta", 0, 0), ("batch_end", "ignore"),
                                                 ("token", 1, 1), ("meta", 1, 0), ("att", 1, 0)])),
+    # the same token first with its content, later again in its public form (no content): the stored content stays
+    ("content-then-bare", _script(tokens=[(0, -1, 24), (0, 0, 8)], metas=[(0, 2), (1, 2)],
+                                  ops=[("token", 0, 1), ("meta", 0, 0), ("token", 0, 0), ("token", 1, 1), ("meta", 1, 0),
+                                       ("token", 0, 0), ("att", 0, 0)])),
     ("redelivered-metadata", _script(tokens=[(0, -1, 8), (0, 0, 8)], metas=[(0, 2), (1, 2)],
                                      ops=[("token", 0, 1), ("meta", 0, 0), ("token", 1, 1), ("meta", 0, 0),
                                           ("meta", 1, 0), ("att", 0, 0)])),
